@@ -94,20 +94,27 @@ TruthTrim(t, lo) ==
 (* Per-address connection life cycle (C12):                                *)
 (*   Synchronizing(1) .. Synchronizing(total-1) Synchronized               *)
 (*   (Interrupted Resumed)* [Interrupted] [Disconnected], nothing after.   *)
-(* State: <<phase, count>>, phase in "sync","run","intr","disc","bad"      *)
-EvInit == <<"sync", 0>>
+(* State: <<phase, count, total>>, phase in "sync","run","intr","disc",    *)
+(* "bad"; total = what the Synchronizing events of this address announce   *)
+(* (0 while none has been seen: the property does not fix the number of    *)
+(* round trips, only that events and matched round trips agree with it).   *)
+EvInit == <<"sync", 0, 0>>
 
 EvStep(s, kind, total, count) ==
   CASE s[1] = "sync" /\ kind = "Sing" ->
-          IF count = s[2] + 1 /\ count < total THEN <<"sync", count>> ELSE <<"bad", 1>>
+          IF count = s[2] + 1 /\ count < total /\ s[3] \in {0, total} THEN <<"sync", count, total>> ELSE <<"bad", 1, s[3]>>
     [] s[1] = "sync" /\ kind = "Sed"  ->
-          IF s[2] = total - 1 THEN <<"run", 0>> ELSE <<"bad", 2>>
-    [] s[1] = "run"  /\ kind = "Intr" -> <<"intr", 0>>
-    [] s[1] = "intr" /\ kind = "Resu" -> <<"run", 0>>
-    [] s[1] \in {"run", "intr"} /\ kind = "Disc" -> <<"disc", 0>>
-    [] s[1] = "sync" /\ kind = "Disc" -> <<"disc", 0>>   \* explicit disconnect while syncing
-    [] OTHER -> <<"bad", 3>>
+          IF (s[3] = 0 /\ s[2] = 0) \/ (s[3] > 0 /\ s[2] = s[3] - 1) THEN <<"run", 0, s[3]>> ELSE <<"bad", 2, s[3]>>
+    [] s[1] = "run"  /\ kind = "Intr" -> <<"intr", 0, s[3]>>
+    [] s[1] = "intr" /\ kind = "Resu" -> <<"run", 0, s[3]>>
+    [] s[1] \in {"run", "intr"} /\ kind = "Disc" -> <<"disc", 0, s[3]>>
+    [] s[1] = "sync" /\ kind = "Disc" -> <<"disc", 0, s[3]>>   \* explicit disconnect while syncing
+    [] OTHER -> <<"bad", 3, s[3]>>
 
+\* round trips a handshake needs according to what has been announced (1 if nothing was announced)
+EvTotal(s) == IF s[3] > 0 THEN s[3] ELSE 1
+
+\* the library's constant: used by the design models (Protocol.tla), not by the monitor's verdicts
 NumSyncRoundTrips == 5
 
 ---------------------------------------------------------------------------
